@@ -154,12 +154,18 @@ def check_filter(facts, chk, rule, tier, stale_counts=True):
     nrun = 0
     nrows = 0
     bad = []
-    for n in ns:
-        t = tables(alpha, n)
+    # the families: every flag combination over a small alphabet, then every PAIR of symbols of the whole alphabet the table can hold
+    # (all IUPAC codes, U, gap) with the flags that reach the site predicates - a predicate that conflates two particular symbols
+    # (a hashed / bit-masked symbol set) only shows on that pair
+    FULL = 'ACGTU-NRYSWKMBDHV'
+    fams = [(alpha, n, list(itertools.product((0, 1), repeat=4)), None) for n in ns]
+    fams.append((FULL, 2, [(f, m, g, 1) for f in (0, 1) for m in (0, 1) for g in (0, 1)] if tier == 'thorough' else [(0, 0, 0, 1), (1, 0, 1, 1), (0, 1, 0, 1), (0, 0, 1, 1)], (0, 2)))
+    for alpha_, n, flagsets, mcs in fams:
+        t = tables(alpha_, n)
         stale = [((i * 7) % (n + 2)) for i in range(len(t.rows))] if stale_counts else None   # stored counts are arbitrary history
         for ft in FILTERS:
-            for faam, mask, icg, upd in itertools.product((0, 1), repeat=4):
-                for mc in range(0, n + 2):
+            for faam, mask, icg, upd in flagsets:
+                for mc in (mcs if mcs is not None else range(0, n + 2)):
                     arr = mk_array(facts, t, stale)
                     I = Interp(facts, {'IntT': 'u64'})
                     r = I.call_fn(MSA + '::filter', [RefV(arr), BV(64, mc), BV(1, faam), filter_type(facts, ft), BV(1, mask), BV(1, icg), BV(1, upd)])
@@ -186,8 +192,8 @@ def check_filter(facts, chk, rule, tier, stale_counts=True):
                       detail='%d of %d configurations differ; first: %s: %s' % (len(bad), nrun, bad[0][0], bad[0][1]))
     else:
         chk.ok(rule, key, MSA + '::filter',
-               'filter == plain-table model for every row over %s^n, n in %s, 4 filters x 16 flag combinations x thresholds 0..n+1, arbitrary stored counts (%d runs, %d row decisions)'
-               % (alpha, list(ns), nrun, nrows), evals=nrows)
+               'filter == plain-table model for every row over %s^n, n in %s, 4 filters x 16 flag combinations x thresholds 0..n+1, and for every pair of symbols of %s under the flags that reach the site predicates; arbitrary stored counts (%d runs, %d row decisions)'
+               % (alpha, list(ns), FULL, nrun, nrows), evals=nrows)
 
 
 def check_update_counts(facts, chk, rule, tier):
@@ -532,3 +538,57 @@ def check_apply_filters(facts, chk, rule, tier):
         chk.violation(rule, key, where='generic_modes::apply_filters', evals=nrun, detail='%d of %d configurations differ; first: %s: rows in one result only %s' % (len(bad), nrun, bad[0][0], bad[0][1]))
     else:
         chk.ok(rule, key, 'generic_modes::apply_filters', 'apply_filters == table model with threshold ceil(n x min_freq) and every flag handed over unchanged (%d configurations)' % nrun, evals=nrun)
+
+
+# ------------------------------------------------------------------ ska weed's filter step (no weed file): generic_modes::weed on tables
+def check_weed_filter(facts, chk, rule, tier):
+    """generic_modes::weed without a weed file is `ska weed`'s frequency / site filter.  Documented effect on the plain table:
+    threshold = floor(n x min_freq); when nothing is requested (threshold 0, no site filter, no mask, gaps not ignored) the file
+    is saved unchanged; otherwise MergeSkaArray::filter's documented effect with that threshold (rows recounted in the requested
+    mode and kept iff count >= threshold and the site predicate holds, masked afterwards).  Interpreted on every row over a small
+    alphabet for 2-3 samples x min_freq values hitting every threshold 0..n x all flags, with the save captured."""
+    import copy
+    import math
+    key = rule + ':weed-filter'
+    bad = []
+    nrun = 0
+    alpha = 'AC-NR'
+    for n in ((2, 3) if tier != 'thorough' else (1, 2, 3)):
+        t = tables(alpha, n)
+        t = Table(t.names, [(k, b) for k, b in t.rows if count(b, False) > 0])          # a stored table has no all-missing rows
+        freqs = sorted({0.0, 1.0} | {(j / n) + d for j in range(1, n + 1) for d in (0.0, 0.01) if (j / n) + d <= 1.0} | {max(0.0, 1.0 / n - 0.01)})
+        for mf in freqs:
+            thr = int(math.floor(n * mf))
+            for ft in FILTERS:
+                for faam, mask, icg in itertools.product((0, 1), repeat=3):
+                    if tier != 'thorough' and ((ft in ('NoAmbig', 'NoAmbigOrConst') and mask and icg) or (n == 3 and (ft in ('NoAmbig', 'NoAmbigOrConst') or (mask and icg)))):
+                        continue
+                    arr = mk_array(facts, t)
+                    I = Interp(facts, {'IntT': 'u64'})
+                    saved = []
+                    I.overrides[MSA + '::save'] = lambda I_, a, t_, c: (saved.append(copy.deepcopy(I_.load(a[0]))), Agg('adt:std::result::Result', 0, [Agg('tuple', 0, [])]))[1]
+                    nrun += 1
+                    cfg = dict(samples=n, min_freq=round(mf, 3), threshold=thr, filter=ft, filter_ambig_as_missing=faam, ambig_mask=mask, no_gap_only=icg)
+                    try:
+                        I.call_fn('generic_modes::weed', [RefV(arr), RefV(Cell(NONE, 'wf')), BV(1, 0), float(mf), BV(1, faam), filter_type(facts, ft), BV(1, mask), BV(1, icg),
+                                                          RefV(Cell(StrV(list('out')), 'o'))])
+                    except Panic as e:
+                        bad.append((cfg, 'panics: %s' % e.kind))
+                        continue
+                    if len(saved) != 1:
+                        bad.append((cfg, '%d files saved' % len(saved)))
+                        continue
+                    names, kmers, rows, counts, ncols = read_array(facts, Cell(saved[0], 'saved'))
+                    if thr > 0 or ft != 'NoFilter' or mask or icg:
+                        want, _, _ = spec_filter(t, thr, faam, ft, mask, icg)
+                    else:
+                        want = t
+                    if names != t.names or list(zip(kmers, rows)) != list(want.rows):
+                        got = set(zip(kmers, rows))
+                        ws = set(want.rows)
+                        bad.append((cfg, 'saved rows differ from the documented effect: only saved %s, only specified %s' % (sorted(got - ws)[:3], sorted(ws - got)[:3])))
+    if bad:
+        chk.violation(rule, key, where='generic_modes::weed (filter step)', evals=nrun, detail='%d of %d configurations differ; first: %s: %s' % (len(bad), nrun, bad[0][0], bad[0][1]))
+    else:
+        chk.ok(rule, key, 'generic_modes::weed (filter step)',
+               'the saved table == documented effect (threshold floor(n x min_freq); untouched when nothing is requested) for every row over %s^n, n = 2..3, min_freq at and around every threshold, 4 filters x 8 flag combinations (%d runs)' % (alpha, nrun), evals=nrun)
